@@ -8,7 +8,14 @@ PATCH="$1"; shift
 M=${MUT_DIR:-/tmp/mut}
 mkdir -p $M/out
 rsync -a --delete --exclude target --exclude '.git' /repo/ $M/repo/
-rsync -a --delete --exclude 'target*' /verif/harness/ $M/harness/
+# the harness: the committed state (HEAD) by default, so that seeds can be re-run in the
+# background while the working tree is being edited; MUT_WORKTREE=1 takes the working tree
+if [ "${MUT_WORKTREE:-0}" = 1 ]; then
+  rsync -a --delete --exclude 'target*' /verif/harness/ $M/harness/
+else
+  rm -rf $M/harness.new && mkdir -p $M/harness.new && git -C /verif archive HEAD harness | tar -x -C $M/harness.new \
+    && rsync -a --delete --checksum --exclude 'target*' $M/harness.new/harness/ $M/harness/ && rm -rf $M/harness.new
+fi
 cp /verif/known_findings.json $M/out/ 2>/dev/null
 sed -i "s#/repo/quizx#$M/repo/quizx#" $M/harness/Cargo.toml
 # while other monitors are being written their files may be mid-edit: unless MUT_ALL=1, stub
